@@ -8,7 +8,8 @@ from vcheck import Job
 RULE = ("cell = (configuration n,k,l,Bgbit,t,basebit ; deletion order ; tool) for API lifecycles (parameters -> keys -> key "
         "generation -> encryption -> all 14 gates + coefficient-domain bootstraps -> export/import of every object on both "
         "transports -> evaluation with the imported keys -> deletion in one of six orders), (object kind) for the IO registry, "
-        "(type) for the sweep over all allocator/constructor/destructor families (single and array, 17 types x 5 pairings) "
+        "(type) for the sweep over all allocator/constructor/destructor families (single and array, 17 types x 5 pairings), "
+        "(driver) for the workloads of other checks re-run under the sanitizers and memcheck "
         "pass, and thread create/exit histories. Oracles: AddressSanitizer + UBSan (minus by-design wrapping) + LeakSanitizer on "
         "the C/C++ code, valgrind memcheck on the valgrind flavor (hand-written assembly), both with leak checking at exit; a "
         "report is keyed by its kind and the first library frame. Blocks still reachable from the library's parameter garbage "
@@ -65,6 +66,30 @@ def run(tier, seed, t0):
     for be in (["spqlios-fma", "spqlios-avx", "nayuki-avx"] if thorough else ["spqlios-fma"]):
         jobs.append(Job("memcheck-threads-%s" % be, "drv_c16", "vg", be, ["--mode", "threads", "--count", 12, "--burst", 4, "--seed", seed], tool="memcheck", timeout=7200, weight=2))
 
+    # the workloads of the behavioural checks double as memory-safety workloads: same drivers, sanitizer builds, only the
+    # sanitizer/valgrind reports and crashes of these jobs are taken (their functional oracles belong to their own properties;
+    # no leak checking here: those drivers are not written to release everything)
+    reuse = [("drv_c09", "asan", "spqlios-fma", ["--seed", seed, "--k", 2, "--l", 2, "--Bgbit", 10, "--reps", 6, "--rreps", 6, "--n", "1,4", "--hreps", 3]),
+             ("drv_c09", "asan", "nayuki-portable", ["--seed", seed, "--k", 1, "--l", 3, "--Bgbit", 7, "--reps", 6, "--rreps", 6, "--n", "1,4", "--hreps", 3]),
+             ("drv_c04", "asan", "fftw", ["--seed", seed, "--n", 8, "--k", 1, "--l", 3, "--Bgbit", 7, "--modes", "abc", "--entries", 15, "--count", 12, "--pstep", 64, "--coefdomain", 1]),
+             ("drv_c15", "asan", "spqlios-avx", ["--seed", seed, "--lambda", 0, "--reps", 1, "--lreps", 1, "--treps", 3]),
+             ("drv_c05", "asan", "nayuki-avx", ["--mode", "single", "--reps", 3, "--seed", seed]),
+             ("drv_c03", "asan", "spqlios-fma", ["--part", "tgsw", "--k", 2, "--l", 2, "--Bgbit", 10, "--tier", "quick", "--seed", seed]),
+             ("drv_c10", "asand", "nayuki-portable", ["--seed", seed, "--icls", 0, "--lgB", 9, "--reps", 1, "--tag", "asand-nayuki-portable"]),
+             ("drv_c09", "vg", "spqlios-avx", ["--seed", seed, "--k", 1, "--l", 2, "--Bgbit", 10, "--reps", 3, "--rreps", 3, "--n", "2", "--hreps", 2]),
+             ("drv_c10", "vg", "nayuki-avx", ["--seed", seed, "--icls", 1, "--lgB", 9, "--reps", 1, "--tag", "vg-nayuki-avx"])]
+    if thorough:
+        reuse += [("drv_c02", "asan", "spqlios-fma", ["--seed", seed, "--lambda", 80, "--gates", 250]),
+                  ("drv_c07", "asan", "fftw", ["--mode", "keys", "--lambda", 0, "--seed", seed, "--threads", 4]),
+                  ("drv_c14", "asan", "spqlios-fma", ["--mode", "tlwe", "--N", "2,8,64,1024", "--k", "1,2,3", "--reps", 3, "--seed", seed]),
+                  ("drv_c08", "asan", "spqlios-fma", ["--mode", "multi", "--t", 9, "--basebit", 2, "--n_in", 2048, "--n_out", 5, "--reps", 40, "--seed", seed]),
+                  ("drv_c12", "asan", "spqlios-fma", ["--seed", seed, "--l", 2, "--Bgbit", 10, "--N", 4096, "--log2count", 18]),
+                  ("drv_c06", "asan", "nayuki-avx", ["--seed", seed, "--threads", "2,8", "--rounds", 2, "--slowjobs", 0]),
+                  ("drv_c04", "vg", "spqlios-fma", ["--seed", seed, "--n", 4, "--k", 1, "--l", 2, "--Bgbit", 10, "--modes", "bc", "--entries", 5, "--count", 6, "--pstep", 256, "--coefdomain", 0])]
+    for i, (drv, fl, be, a) in enumerate(reuse):
+        jobs.append(Job("reuse-%s-%s-%s" % (drv, fl, be), drv, fl, be, a, tool=("memcheck" if fl == "vg" else None), timeout=7200,
+                        weight=2, meta={"leaks": False, "reuse": True}))
+
     def post(results, agg):
         cells = {}
         for r in results:
@@ -74,6 +99,22 @@ def run(tier, seed, t0):
         agg["cells"] = cells
         return [], {"tool_reports_total": sum(len(r.tool_reports) for r in results)}
 
+    def drop_foreign(results):
+        # functional violations of reused drivers are not C16's business
+        for r in results:
+            if r.job.meta.get("reuse"):
+                r.events = [e for e in r.events if e.get("t") != "viol"]
+        return results
+
+    _orig = vcheck.run_jobs
+    vcheck.run_jobs = lambda js, progress=True: drop_foreign(_orig(js, progress))
+    try:
+        return _run(tier, seed, t0, jobs, post)
+    finally:
+        vcheck.run_jobs = _orig
+
+
+def _run(tier, seed, t0, jobs, post):
     return vcheck.simple_run("C16", tier, seed, t0, jobs, "exploration", RULE,
                              ["red-zone tools miss non-adjacent and intra-object overflows: a clean run is 'no report on these executions', not memory safety",
                               "memcheck runs use the valgrind flavor (-march=haswell: AVX2/FMA assembly paths compiled in, no AVX-512)"],
